@@ -16,6 +16,7 @@ package main
 import (
 	"bufio"
 	"bytes"
+	"context"
 	"encoding/binary"
 	"encoding/json"
 	"flag"
@@ -236,8 +237,23 @@ type workerOut struct {
 	race  string
 }
 
+// workerTimeout is a watchdog for harness liveness only (a hung worker ends the
+// check as undecided, exit 2); it never influences what a run does.
+func workerTimeout(args []string) time.Duration {
+	for i, a := range args {
+		if a == "-secs" && i+1 < len(args) {
+			if f, err := strconv.ParseFloat(args[i+1], 64); err == nil {
+				return time.Duration(f*float64(time.Second)) + 5*time.Minute
+			}
+		}
+	}
+	return 30 * time.Minute
+}
+
 func runWorker(bin string, args []string, gomaxprocs int, raceLog string) *workerOut {
-	c := exec.Command(bin, args...)
+	ctx, cancel := context.WithTimeout(context.Background(), workerTimeout(args))
+	defer cancel()
+	c := exec.CommandContext(ctx, bin, args...)
 	env := goEnv()
 	if gomaxprocs > 0 {
 		env = append(env, "GOMAXPROCS="+strconv.Itoa(gomaxprocs))
@@ -292,7 +308,11 @@ type knownFile struct {
 
 func loadKnown() *knownFile {
 	var k knownFile
-	b, err := os.ReadFile(filepath.Join(verifHome, "known_findings.json"))
+	path := filepath.Join(verifHome, "known_findings.json")
+	if alt := os.Getenv("VERIF_KNOWN_FILE"); alt != "" {
+		path = alt // testing the mechanism itself
+	}
+	b, err := os.ReadFile(path)
 	if err != nil {
 		return &k
 	}
